@@ -21,7 +21,8 @@ from vp.ref import xsdlex as X
 PROPERTY = 'C09'
 LEVEL = 'exploration'
 RULE = ('one case = one function call (fn, parser version 1.0/2.0/3.0/3.1, argument list) derived in batches of 24 '
-        'from one hypothesis-generated pool (4 strings, 3 doubles, one 62-bit integer expanded by splitmix64); strings of 0-12 code points over an alphabet of ASCII, XML and non-XML whitespace, combining '
+        'from one hypothesis-generated pool (4 strings, 3 doubles, one 62-bit integer expanded by splitmix64); strings '
+        'of 0-12 code points over an alphabet of ASCII, XML and non-XML whitespace, combining '
         'marks, astral code points and case-mapping oddities (search strings are mostly slices of the subject string); '
         'numeric arguments: integers, .5 ties and their neighbours, negatives, zeros, huge, +-INF, NaN as double / '
         'integer / decimal; arguments passed as $variables (80%) or rendered as literals with quote doubling (20%). '
@@ -36,6 +37,8 @@ ASSUMPTIONS = [
     'str.upper()/str.lower() of the running interpreter\'s Unicode version',
     'double -> string inside fn:concat: exact string demanded only when the exact decimal expansion of the double has '
     '<= 15 significant digits, otherwise lexical shape + exact round trip (XSD 1.0 canonical form does not fix the digit count)',
+    'libxml2 differential: where libxml2 and the reference model disagree no verdict is given and the case is counted '
+    '(class lxml:oracles-disagree; seen: libxml2 rounds with floor(x + 0.5), so substring(s, 0.49999999999999994, ...) starts at 1)',
     'libxml2 differential: numbers inside fn:concat are limited to |x| < 1e9 with <= 6 fraction digits (libxml2 formats '
     'other numbers with an exponent, which XPath 1.0 forbids); string-length is compared by numeric value',
     'the html-ascii-case-insensitive collation is modelled as: fold A-Z to a-z, then code point order, one code point '
